@@ -1,5 +1,7 @@
 import MW.Staking.Facts
 import MW.Treasury.Model
+import MW.Inv.WorldOwn
+import MW.Inv.Demo
 /-!
 # C12 — Two-step, seven-day time-locked admin handover (both contracts)
 
@@ -269,6 +271,172 @@ theorem treasury_runs_machine (s s' : TState) (env : MW.Staking.Env) (info : MW.
     unfold MW.Treasury.updateConfig at h
     simp only [bind_ok, ensure_ok, pure_ok] at h
     obtain ⟨_, _, _, _, h⟩ := h; cases h; rfl
+
+/-! ## the staking contract along every history of the chain model -/
+
+section World
+open MW.Staking MW.Chain
+
+/-- every message other than the three ownership messages, and every reply and callback, leaves the staking
+contract's admin, nominee and time lock untouched (ResumeContract and UpdateConfig included) -/
+theorem staking_ownership_frame (s s' : CState) (env : Env) (info : Info) (m : ExecMsg) (out : List SubMsg)
+    (hm : ∀ n, m ≠ .transferOwnership n) (hr : m ≠ .revokeOwnershipTransfer) (ha : m ≠ .acceptOwnership)
+    (h : execute s env info m = .ok (s', out)) : ownOf s' = ownOf s := by
+  have := execute_own h
+  cases m <;> first | exact this | skip
+  · exact absurd rfl (hm _)
+  · exact absurd rfl ha
+  · exact absurd rfl hr
+
+/-- the attempt of the abstract machine that a world event amounts to: a *committed* transaction or ibc-hooks
+delivery carrying one of the three ownership messages; every other event is no machine event -/
+def evOf (w : World) (e : Event) : Option Ev :=
+  if (step w e).committed then
+    match e with
+    | .exec sender _ (.transferOwnership n) _ _ => some (.nominate (w.timeNs / 1000000000) sender (addrValidate w.chainPrefix n))
+    | .exec sender _ .revokeOwnershipTransfer _ _ => some (.revoke sender)
+    | .exec sender _ .acceptOwnership _ _ => some (.accept (w.timeNs / 1000000000) sender)
+    | .hook channel ns _ (.transferOwnership n) _ =>
+      (deriveIntermediateSender channel ns w.chainPrefix).map
+        (fun a => .nominate (w.timeNs / 1000000000) a (addrValidate w.chainPrefix n))
+    | .hook channel ns _ .revokeOwnershipTransfer _ => (deriveIntermediateSender channel ns w.chainPrefix).map .revoke
+    | .hook channel ns _ .acceptOwnership _ =>
+      (deriveIntermediateSender channel ns w.chainPrefix).map (.accept (w.timeNs / 1000000000))
+    | _ => none
+  else none
+
+def gstepO (g : G) : Option Ev → G
+  | none => g
+  | some e => gstep g e
+
+/-- **every event of the chain model** is, on the ownership triple of the staking contract, exactly the machine
+step `evOf` names (or no step) -/
+theorem staking_step_is_machine (w : World) (g : G) (e : Event) (hg : g.o = ownOf w.c) :
+    (gstepO g (evOf w e)).o = ownOf (step w e).w.c := by
+  rw [step_own]
+  unfold ownAfter evOf
+  by_cases hc : (step w e).committed = true
+  · simp only [hc, ↓reduceIte]
+    cases e with
+    | exec sender funds msg f txi =>
+      cases msg <;> simp only [gstepO, ownAfterMsg, hg]
+      case transferOwnership n =>
+        simp only [gstep, hg, World.env, Env.seconds]
+        split <;> simp_all
+      case revokeOwnershipTransfer =>
+        simp only [gstep, hg]
+        split <;> simp_all
+      case acceptOwnership =>
+        simp only [gstep, hg, World.env, Env.seconds]
+        split <;> simp_all
+    | hook channel ns coin msg f =>
+      cases hd : deriveIntermediateSender channel ns w.chainPrefix with
+      | none => cases msg <;> simp [gstepO, hd, hg]
+      | some acct =>
+        cases msg <;> simp only [hd, Option.map_some] <;> simp only [gstepO, ownAfterMsg]
+        case transferOwnership n =>
+          simp only [gstep, hg, World.env, Env.seconds]
+          split <;> simp_all
+        case revokeOwnershipTransfer =>
+          simp only [gstep, hg]
+          split <;> simp_all
+        case acceptOwnership =>
+          simp only [gstep, hg, World.env, Env.seconds]
+          split <;> simp_all
+        all_goals exact hg
+    | _ => simp [gstepO, hg]
+  · simp only [hc, Bool.false_eq_true, ↓reduceIte, gstepO, hg]
+
+/-- the machine attempts a world history amounts to, in order -/
+def machineEvs (w : World) : List Event → List Ev
+  | [] => []
+  | e :: es => (evOf w e).toList ++ machineEvs (step w e).w es
+
+theorem foldl_gstepO (g : G) (o : Option Ev) (rest : List Ev) :
+    (o.toList ++ rest).foldl gstep g = rest.foldl gstep (gstepO g o) := by
+  cases o <;> rfl
+
+theorem staking_history_is_machine (w : World) (gh : WGhost) (g : G) (evs : List Event) (hg : g.o = ownOf w.c) :
+    ((machineEvs w evs).foldl gstep g).o = ownOf (runW w gh evs).1.c := by
+  induction evs generalizing w gh g with
+  | nil => exact hg
+  | cons e es ih =>
+    simp only [machineEvs, runW, foldl_gstepO]
+    exact ih (step w e).w (wgstep w gh e) (gstepO g (evOf w e)) (staking_step_is_machine w g e hg)
+
+/-- **every history**: the admin, nominee and time lock of the staking contract after any history of the chain
+model from an accepted instantiation are those of the abstract machine after the history's committed ownership
+attempts, started with the instantiating account as admin.  Hence everything proved about machine histories above
+(`inv_reach`, `admin_changes_only_by_accept`, …) holds of the staking contract whatever else happens in between —
+stakes, halts and resumes, configuration updates, IBC callbacks, rolled-back transactions. -/
+theorem C12_staking_history {env : Env} {info : Info} {msg : InstantiateMsg} {c0 : CState} {out : List SubMsg}
+    (hi : instantiate env info msg = .ok (c0, out)) (self pfx : String) (t hgt : Nat) (evs : List Event) :
+    ownOf (runW (bootWorld c0 self pfx t hgt) {} evs).1.c
+      = ((machineEvs (bootWorld c0 self pfx t hgt) evs).foldl gstep (boot info.sender)).o := by
+  have hb : (boot info.sender).o = ownOf (bootWorld c0 self pfx t hgt).c := by
+    unfold instantiate at hi
+    simp only [bind_ok, pure_ok] at hi
+    obtain ⟨_, _, _, _, _, _, _, _, _, _, _, _, _, _, hi⟩ := hi
+    cases hi; rfl
+  exact (staking_history_is_machine _ {} _ evs hb).symm
+
+/-- **the property for the staking contract, along every history**: if an event changes the admin, that event is a
+committed AcceptOwnership by exactly the nominee `q` of the live nomination, made at time `tn` by the then admin, and
+at least seven days (604800 s) have passed since `tn` -/
+theorem C12_staking_admin_change {env : Env} {info : Info} {msg : InstantiateMsg} {c0 : CState} {out : List SubMsg}
+    (hi : instantiate env info msg = .ok (c0, out)) (self pfx : String) (t hgt : Nat) (evs : List Event) (e : Event)
+    (hch : (runW (bootWorld c0 self pfx t hgt) {} (evs ++ [e])).1.c.admin ≠ (runW (bootWorld c0 self pfx t hgt) {} evs).1.c.admin) :
+    ∃ now q tn by_, evOf (runW (bootWorld c0 self pfx t hgt) {} evs).1 e = some (.accept now q)
+      ∧ ((machineEvs (bootWorld c0 self pfx t hgt) evs).foldl gstep (boot info.sender)).nom = some (tn, q, by_)
+      ∧ tn + 604800 ≤ now
+      ∧ (runW (bootWorld c0 self pfx t hgt) {} (evs ++ [e])).1.c.admin = some q := by
+  have h0 := C12_staking_history hi self pfx t hgt evs
+  have hrun : ∀ (w : World) (g : WGhost) (l : List Event) (x : Event),
+      (runW w g (l ++ [x])).1 = (step (runW w g l).1 x).w := by
+    intro w g l x
+    induction l generalizing w g with
+    | nil => rfl
+    | cons y ys ih => simp only [List.cons_append, runW]; exact ih _ _
+  have hstep := staking_step_is_machine (runW (bootWorld c0 self pfx t hgt) {} evs).1
+    ((machineEvs (bootWorld c0 self pfx t hgt) evs).foldl gstep (boot info.sender)) e h0.symm
+  rw [hrun] at hch ⊢
+  have ha1 : (step (runW (bootWorld c0 self pfx t hgt) {} evs).1 e).w.c.admin
+      = (gstepO ((machineEvs (bootWorld c0 self pfx t hgt) evs).foldl gstep (boot info.sender))
+          (evOf (runW (bootWorld c0 self pfx t hgt) {} evs).1 e)).o.admin := by
+    rw [hstep]; rfl
+  have ha0 : (runW (bootWorld c0 self pfx t hgt) {} evs).1.c.admin
+      = ((machineEvs (bootWorld c0 self pfx t hgt) evs).foldl gstep (boot info.sender)).o.admin := by
+    rw [← h0]; rfl
+  rw [ha1, ha0] at hch
+  cases hev : evOf (runW (bootWorld c0 self pfx t hgt) {} evs).1 e with
+  | none => rw [hev] at hch; exact absurd rfl hch
+  | some mev =>
+    rw [hev] at hch
+    simp only [gstepO] at hch
+    obtain ⟨now, q, tn, by_, hme, hnom, hle, hadm⟩ :=
+      admin_changes_only_by_accept info.sender (machineEvs (bootWorld c0 self pfx t hgt) evs) mev hch
+    refine ⟨now, q, tn, by_, by rw [hme], hnom, hle, ?_⟩
+    rw [ha1, hev]; exact hadm
+
+end World
+
+/-! non-vacuity of the world-level statements (tests on a concrete history of the chain model): a nomination, a
+ResumeContract and an UpdateConfig in between, an acceptance one second early (refused, no machine event), seven days
+after the nomination the acceptance commits and the admin changes; two machine events in total -/
+section Demo
+open MW.Staking MW.Chain MW.Chain.Demo
+def demoHandover : List Event :=
+  [ .exec demoAdmin [] (.transferOwnership demoUser) {} (some 0),
+    .exec demoAdmin [] (.resumeContract 0 0 0) {} (some 0),
+    .exec demoAdmin [] (.updateConfig none none none none (some 100)) {} (some 0),
+    .advance ((604800 - 1) * 1000000000) 10,
+    .exec demoUser [] .acceptOwnership {} (some 0),
+    .advance 1000000000 1,
+    .exec demoUser [] .acceptOwnership {} (some 0) ]
+#guard (demoBoot.map fun w => (runW w {} (demoHandover.take 5)).1.c.admin) == some (some demoAdmin)
+#guard (demoBoot.map fun w => (runW w {} demoHandover).1.c.admin) == some (some demoUser)
+#guard (demoBoot.map fun w => (machineEvs w demoHandover).length) == some 2
+end Demo
 
 /-- non-vacuity: nominate at t = 1000, accept fails at 7 d − 1 s and succeeds at exactly 7 d -/
 example :
